@@ -380,7 +380,8 @@ func cmdVerify(args []string) int {
 	wall := time.Since(start).Seconds()
 	fmt.Fprintf(os.Stderr, "wkv %s %s: %d/%d obligations discharged, %d/%d covers ok, %d functions, %.1fs wall, %.1fs solver\n",
 		*prop, *tier, discharged, obligations, coversOK, covers, len(funcs), wall, float64(solverMs)/1000)
-	if onlyRe != nil {
+	if onlyRe != nil || os.Getenv("WKV_NO_EVIDENCE") != "" {
+		// debug / must-fail corpus runs never touch the evidence files
 		if violations > 0 {
 			return 1
 		}
